@@ -338,6 +338,12 @@ def handle : List String → String
         | some b => (b.filter (· == 44)).length
         | none => 0
       s!"OK tags=metarow,{impl},commas{min commas 3}"
+  | ["scanextra", mode, impl] =>
+    -- optional parts of a ScanResponse the scan did not ask for reach the scanner
+    if impl = "panic" then s!"SPEC key=panic-scanner a ScanResponse with {mode} crashed Scanner.Next"
+    else if impl = "hang" then s!"SPEC key=spin-scanner a ScanResponse with {mode} makes Scanner.Next hang"
+    else if impl = "no-end-after-50-rows" then s!"SPEC key=spin-scanner a ScanResponse with {mode} makes the scan return the same row for ever"
+    else s!"OK tags=scanextra,{mode},{impl}"
   | ["incr", n, impl] =>
     if impl = "panic" then s!"SPEC key=panic-increment an Increment answer with a {n}-byte value crashed the caller"
     else if n = "8" && impl ≠ "ok" then s!"SPEC key=increment-rejected-good-answer {impl}"
@@ -362,6 +368,27 @@ def handleC12 : List String → String
       else if (pcs.zip live).any (fun p => p.2 && !(p.1.length = 1 && (p.1.headD "").startsWith "ok")) then
         s!"SPEC key=success-received-but-reported-failed late={late} obs={obs}"
       else s!"OK tags=c12r,late{late},{if live.any (!·) then "dropped" else "alllive"}"
+  | ["regionexc", _, "single-region", _] => "OK tags=c12r,regionexc,single-region"
+  | ["regionexc", cls, setup, obs] =>
+    -- the first region of the request failed as a whole (exception class `cls`), the others
+    -- succeeded: the calls of the other regions keep their success
+    match parseRpc "multi" setup with
+    | some (.multi m) =>
+      let pcs := splitObs obs
+      -- region of each call (none: dropped before the request was built)
+      let regs : List (Option Nat) := m.calls.map (fun c => c.map (·.region))
+      let firstReg := (regs.filterMap id).head?
+      if pcs.length ≠ regs.length then "BAD obs"
+      else
+        let bad := (pcs.zip regs).any fun p =>
+          match p.2 with
+          | none => false
+          | some r =>
+            if some r = firstReg then p.1.any (·.startsWith "ok")        -- the failed region's calls cannot have succeeded
+            else !(p.1.length = 1 && (p.1.headD "").startsWith "ok")      -- the others keep their success
+        if bad then s!"SPEC key=success-received-but-reported-failed regionexc={cls} obs={obs}"
+        else s!"OK tags=c12r,regionexc,{cls}"
+    | _ => "BAD setup"
   | "broken" :: rest => s!"DIFF harness: {" ".intercalate rest}"
   | _ => "BAD command"
 
